@@ -172,18 +172,26 @@ def _ts_gating(fc, T: RuleResult):
 
 def _modes_layout(model: Model, fc, T: RuleResult):
     bw = fc.backward
-    pf = bw.module.functions.get(bw.qualname + ".pfunc2")
-    if pf is None:
-        raise AnchorError("_SolveIVP.backward.pfunc2 vanished")
-    rets = [r for r in own_nodes(pf.node) if isinstance(r, ast.Return) and r.value is not None]
-    lens = [len(r.value.elts) if isinstance(r.value, ast.Tuple) else 1 for r in rets]
-    if len(rets) >= 1 and len(set(lens)) == 1 and lens[0] == 4:
-        T.ok(pf.fq, "every exit of pfunc2 returns a 4-tuple (f, t, y, tensor_params)")
-    else:
-        T.bad(pf, pf.node, "the two evaluation modes of pfunc2 must return the same 4-tuple layout (got %s)" % lens)
-    # graph-recording mode: evaluates inside useobjparams(<copies>) with fresh clones
-    src = ast.unparse(pf.node)
-    if "useobjparams" in src and "clone().requires_grad_()" in src:
-        T.ok(pf.fq, "graph-recording mode evaluates under useobjparams(<fresh clones>)")
-    else:
-        T.bad(pf, pf.node, "graph-recording mode must evaluate the function under useobjparams(<fresh clones>)")
+    # the evaluator is found by role: the function(s) of backward's family that evaluate the dynamics under `useobjparams`
+    family = [f for f in bw.module.functions.values() if f is bw or f.qualname.startswith(bw.qualname + ".")]
+    evals = [f for f in family if any(isinstance(w, ast.With) and any("useobjparams" in ast.unparse(it.context_expr) for it in w.items) for w in own_nodes(f.node))]
+    if not evals:
+        raise AnchorError("no function of _SolveIVP.backward evaluates the dynamics under useobjparams (pfunc2 vanished)")
+    for pf in evals:
+        calls_grad = any(isinstance(c, ast.Call) and ast.unparse(c.func).endswith("autograd.grad") for c in own_nodes(pf.node))
+        if not calls_grad and pf is not bw:
+            # a dedicated evaluator: both modes hand back the same record
+            rets = [r for r in own_nodes(pf.node) if isinstance(r, ast.Return) and r.value is not None]
+            lens = [len(r.value.elts) if isinstance(r.value, ast.Tuple) else 1 for r in rets]
+            if len(rets) >= 1 and len(set(lens)) == 1 and lens[0] == 4:
+                T.ok(pf.fq, "every exit of %s returns a 4-tuple (f, t, y, tensor_params)" % pf.name)
+            else:
+                T.bad(pf, pf.node, "the two evaluation modes of %s must return the same 4-tuple layout (got %s)" % (pf.name, lens))
+        else:
+            T.ok(pf.fq, "the evaluation under useobjparams is part of %s (no separate record to agree on)" % pf.name)
+        # graph-recording mode: evaluates inside useobjparams(<copies>) with fresh clones
+        src = ast.unparse(pf.node)
+        if "useobjparams" in src and "clone().requires_grad_()" in src:
+            T.ok(pf.fq, "graph-recording mode evaluates under useobjparams(<fresh clones>)")
+        else:
+            T.bad(pf, pf.node, "graph-recording mode must evaluate the function under useobjparams(<fresh clones>)")
